@@ -135,3 +135,34 @@ Proof. vm_compute. reflexivity. Qed.
 Example ex_guard_order :      (* node errors come before edge errors *)
   check_integrity0 (mkT [mkN 0 0 5 (-1) []] [mkE 0 10 (-1) 0 []] [] [] [] []) = Err ERR_POPULATION_OOB.
 Proof. vm_compute. reflexivity. Qed.
+
+(* ---- collection-level attributes in the shared-portion check ---- *)
+Theorem union_attrs_refused_lemma : forall a_self a_other self other mapping addp,
+  attrs_eqb a_self a_other = false ->
+  is_ok (union_with_attrs a_self a_other self other mapping true addp) = false /\
+  (zlen mapping = zlen (t_nodes other) -> bad_map self mapping = false ->
+   (check_subset_equality self other mapping = Ok tt \/
+    check_subset_equality self other mapping = Err ERR_UNION_DIFF_HISTORIES) ->
+   union_with_attrs a_self a_other self other mapping true addp = Err ERR_UNION_DIFF_HISTORIES).
+Proof.
+  intros a_s a_o self other mapping addp N. unfold union_with_attrs. rewrite N. cbn [negb andb].
+  split.
+  - destruct (negb (zlen mapping =? zlen (t_nodes other))); auto. destruct (bad_map self mapping); auto.
+    destruct (check_subset_equality self other mapping); auto.
+  - intros L B [H|H]; rewrite L, Z.eqb_refl, B, H; reflexivity.
+Qed.
+
+Theorem union_attrs_equal_lemma : forall a_self a_other self other mapping chk addp,
+  (chk = false \/ attrs_eqb a_self a_other = true) ->
+  union_with_attrs a_self a_other self other mapping chk addp = union self other mapping chk addp.
+Proof.
+  intros a_s a_o self other mapping chk addp H. unfold union_with_attrs, union.
+  destruct (negb (zlen mapping =? zlen (t_nodes other))); auto. destruct (bad_map self mapping); auto.
+  destruct H as [->| ->]; auto. cbn [negb]. now rewrite andb_false_r.
+Qed.
+
+Example ex_union_attrs_refused :       (* no shared node at all, other in different time units *)
+  union_with_attrs [[20]; [103]] [[20]; [121]] ex_self ex_other [-1; -1; -1] true true = Err ERR_UNION_DIFF_HISTORIES.
+Proof. vm_compute. reflexivity. Qed.
+Example ex_union_attrs_ok : is_ok (union_with_attrs [[20]; [103]] [[20]; [103]] ex_self ex_other [-1; -1; -1] true true) = true.
+Proof. vm_compute. reflexivity. Qed.
